@@ -12,14 +12,16 @@ IsEv(e) == l <= Len(Trace) /\ Ev.ev = e /\ l' = l + 1 /\ UNCHANGED rej
 Init == l = 1 /\ rej = <<>> /\ recs = <<>>
 ToRec(a) == [hdr |-> a[1], W |-> a[2], L |-> a[3], term |-> a[4], blanks |-> a[5], last |-> a[6]]
 Reset == IsEv("T") /\ recs' = [i \in 1..Len(Ev.recs) |-> ToRec(Ev.recs[i])]
+\* Holds(b): evaluated as one boolean under Skip's ~ENABLED Regular instead of being expanded branch by branch
+Holds(b) == b = TRUE
 \* the letter (0..3) of base p of record i in the rendered file
 Letter(i, p) == (i * 7 + p * p + 3 * p) % 4
 Index == /\ IsEv("index") /\ Ev.res = "nil"
          /\ Len(Ev.idx) = Len(recs)
-         /\ \A i \in DOMAIN recs :
+         /\ Holds(\A i \in DOMAIN recs :
               LET x == [Length |-> Ev.idx[i][1], Start |-> Ev.idx[i][2], Bases |-> Ev.idx[i][3], Bytes |-> Ev.idx[i][4]]
               IN IF Ev.exact THEN DescribesRecord(x, recs, i)
-                 ELSE x.Length = recs[i].L /\ x.Start = TrueStart(recs, i) /\ Ev.posok      \* large records: positions checked by the harness
+                 ELSE x.Length = recs[i].L /\ x.Start = TrueStart(recs, i) /\ Ev.posok)     \* large records: positions checked by the harness
          /\ UNCHANGED recs
 RoundTrip == IsEv("rt") /\ Ev.res = "nil" /\ Ev.equal /\ UNCHANGED recs
 \* one ranged read: calls = <<n, err>> per Read call; bases = all bytes returned (letters), or dok for large reads
@@ -28,14 +30,14 @@ Sum(cs, i) == IF i > Len(cs) THEN 0 ELSE cs[i][1] + Sum(cs, i + 1)
 FRead == /\ IsEv("fread") /\ Ev.res = "nil"
          /\ Ev.s >= 0 /\ Ev.s <= Ev.e /\ Ev.e <= recs[Ev.rec].L
          /\ Sum(Ev.calls, 1) = Ev.e - Ev.s
-         /\ \A i \in DOMAIN Ev.calls : /\ Ev.calls[i][1] <= Ev.buf
-                                       /\ Ev.calls[i][2] \in {"nil", "EOF"}
-                                       /\ (Ev.calls[i][2] = "EOF") = (i = Len(Ev.calls))       \* io.EOF exactly at the end
-                                       /\ (i < Len(Ev.calls) => Ev.calls[i][1] > 0)              \* progress
-         /\ IF "bases" \in DOMAIN Ev
-            THEN /\ Len(Ev.bases) = Ev.e - Ev.s
-                 /\ \A j \in 1..(Ev.e - Ev.s) : Ev.bases[j] = Letter(Ev.rec, Ev.s + j - 1)
-            ELSE Ev.dok
+         /\ Holds(\A i \in DOMAIN Ev.calls : /\ Ev.calls[i][1] <= Ev.buf
+                                             /\ Ev.calls[i][2] \in {"nil", "EOF"}
+                                             /\ (Ev.calls[i][2] = "EOF") = (i = Len(Ev.calls))       \* io.EOF exactly at the end
+                                             /\ (i < Len(Ev.calls) => Ev.calls[i][1] > 0))             \* progress
+         /\ Holds(IF "bases" \in DOMAIN Ev
+                  THEN /\ Len(Ev.bases) = Ev.e - Ev.s
+                       /\ \A j \in 1..(Ev.e - Ev.s) : Ev.bases[j] = Letter(Ev.rec, Ev.s + j - 1)
+                  ELSE Ev.dok)
          /\ UNCHANGED recs
 Regular == Reset \/ Index \/ RoundTrip \/ FRead
 RECURSIVE NextHdr(_)
